@@ -819,21 +819,81 @@ type c14key struct {
 	cat string
 }
 
-// c14pickKeys draws n keys of distinct categories; "" category on ambiguity.
+// Key families that occur in the code base (constants and repositories) besides the configured ones. Many
+// of their names extend or resemble a configured family name (tunnox:mapping_connections: vs
+// tunnox:mapping:, tunnox:nodes:list vs tunnox:node:). Their class is whatever the prefix tables say.
+var c14RealFamilies = []string{"tunnox:mapping_connections:", "tunnox:client_connections:", "tunnox:clients:list", "tunnox:nodes:list",
+	"tunnox:users:list", "tunnox:user_clients:", "tunnox:http_domain:mappings:list", "tunnox:index:user:clients:", "tunnox:index:client:mappings:",
+	"tunnox:persist:node:", "tunnox:persist:user:", "tunnox:persist:users:list", "tunnox:security:ip:blacklist:", "tunnox:auth:", "tunnox:cleanup:",
+	"tunnox:connection:", "tunnox:health:check", "tunnox:runtime:node:clients:", "tunnox:runtime:session:", "tunnox:temp:authcode:code:"}
+
+// c14boundaryKey derives from a configured prefix a key at the boundary of the family: its name extends
+// the family name without being a segment of it (with or without a separator of its own), is a
+// truncation of it, or carries it in the middle.
+func c14boundaryKey(p string, variant int, suffix string) string {
+	stem := strings.TrimSuffix(p, ":")
+	switch variant {
+	case 1:
+		return stem + "_connections:" + suffix
+	case 2:
+		return stem + "s:" + suffix
+	case 3:
+		return stem + suffix
+	case 4:
+		return "zz:" + p + suffix
+	case 5:
+		if len(stem) > 1 {
+			return stem[:len(stem)-1] + ":" + suffix
+		}
+	}
+	return p + suffix
+}
+
+// c14drawKey draws one key for (preferably) category cat: mostly a key inside a configured family of
+// that category, sometimes a boundary key derived from such a family or a key of another real family.
+// The category returned is the one the prefix tables give the key (plain string-prefix membership).
+func c14drawKey(e *c14env, cat, label, suffix string) c14key {
+	c := e.w.C
+	tab := c14tables(e.cfg)[cat]
+	p := tab[c.Intn(len(tab), label+".prefix")]
+	key := p + suffix
+	variant := 0
+	switch c.Intn(10, label+".variant") {
+	case 7:
+		variant = 1 + c.Intn(2, label+".boundary")
+		key = c14boundaryKey(p, variant, suffix)
+	case 8:
+		variant = 3 + c.Intn(3, label+".boundary")
+		key = c14boundaryKey(p, variant, suffix)
+	case 9:
+		variant = 6
+		key = c14RealFamilies[c.Intn(len(c14RealFamilies), label+".real")] + suffix
+	}
+	got := c14categoryOf(e.cfg, key)
+	if got == "" || (variant == 0 && got != cat) {
+		e.w.Probe("ambiguous-prefix")
+		variant = 0
+		key = tab[0] + suffix
+		got = cat
+	}
+	if variant != 0 {
+		e.w.Probe(fmt.Sprintf("key.boundary-variant.%d", variant))
+		if got != cat {
+			e.w.Probe("key.boundary-outside-family." + cat + "-to-" + got)
+		}
+	}
+	return c14key{key: key, cat: got}
+}
+
+// c14pickKeys draws n keys, by preference of distinct categories.
 func c14pickKeys(e *c14env, n int, label string) []c14key {
 	c := e.w.C
 	var out []c14key
 	base := c.Intn(len(c14cats), label+".cat")
 	for i := 0; i < n; i++ {
 		cat := c14cats[(base+i)%len(c14cats)]
-		tab := c14tables(e.cfg)[cat]
-		p := tab[c.Intn(len(tab), label+".prefix")]
-		key := p + "x" + fmt.Sprint(i+1)
-		if c14categoryOf(e.cfg, key) != cat {
-			e.w.Probe("ambiguous-prefix")
-			key = tab[0] + "x" + fmt.Sprint(i+1)
-		}
-		out = append(out, c14key{key: key, cat: cat})
+		k := c14drawKey(e, cat, label, "x"+fmt.Sprint(i+1))
+		out = append(out, k)
 	}
 	return out
 }
@@ -967,7 +1027,7 @@ func init() {
 		ID:    "C14",
 		Level: "exploration",
 		Rule: "each run draws a topology (standalone: memory cache + persistent; cluster with node-local caches + cluster cache + cluster persistent; cluster whose cluster cache is also every node's cache; persistence on/off; 1-2 nodes; cache TTLs), " +
-			"optionally one failing tier operation (tier and position drawn; in such runs the clients take turns so that only the write-back goroutine is concurrent), 1-2 keys whose prefixes are taken from the prefix tables of DefaultConfig()/RuntimePrefixes (category drawn), an initial state (absent / only in the persistent tier as after a restart / written through the facade) and a mode: " +
+			"optionally one failing tier operation (tier and position drawn; in such runs the clients take turns so that only the write-back goroutine is concurrent), 1-2 keys (category drawn; 7 in 10 inside a family of the prefix tables of DefaultConfig()/RuntimePrefixes, else a boundary key derived from such a family - family name extended without a segment boundary, truncated, embedded - or a key of another family that occurs in the code base; the expected category of every key is plain string-prefix membership in the tables), an initial state (absent / only in the persistent tier as after a restart / written through the facade) and a mode: " +
 			"register (2-4 clients x 2-6 of Set(unique value)/Get/Delete/Exists, Redis-style eviction of backed keys, naps across short cache TTLs; tail reads on every node after quiescence and again after all cache TTLs), " +
 			"list (AppendToList(unique member)/RemoveFromList(own member)/GetList; members present, absent, not duplicated at every read, and every returned list re-inspected at the end of the run), aux (Incr/SetNX/SetHash/SetExpiration on node A, observed from node B). " +
 			"Every tier operation and the asynchronous write-back are scheduling points. Non-trivial: two client operations on one register overlapped with at least one being a write, or a write-back was launched, or the injected tier failure fired, or a key written on one node was read on the other (aux: always when 2 nodes). distinct = distinct schedule hashes among those.",
@@ -982,6 +1042,7 @@ func init() {
 			"list members are appended exactly once (unique): a read that shows a member twice shows a value nobody wrote",
 			"the list a GetList handed to its caller is that read's answer and is re-inspected at the end of the run: it must still read the same",
 			"instants exactly on a TTL boundary are never generated (naps are multiples of 331ms, TTLs are not)",
+			"a key belongs to a configured family iff the configured prefix string, exactly as written in the table, is a prefix of the key; every other key is runtime",
 			"the tier class of the key families listed in c14ClusterFamilies/c14DurableFamilies/c14VolatileFamilies is part of the specification (pinned from config.go's documentation of what each family is for); all other prefixes are taken from DefaultConfig() at run time",
 		},
 		Opt: func(tier string) simrt.Options { return simrt.Options{MaxSteps: 400000} },
@@ -1793,21 +1854,12 @@ func c14Aux(w *simrt.World) {
 	if len(e.nodes) > 1 {
 		w.Nontrivial()
 	}
-	tabs := c14tables(e.cfg)
-	pick := func(cat string, i int) string {
-		t := tabs[cat]
-		key := t[c.Intn(len(t), "aux.prefix")] + fmt.Sprintf("a%d", i)
-		if c14categoryOf(e.cfg, key) != cat {
-			key = t[0] + fmt.Sprintf("a%d", i)
-		}
-		return key
-	}
 	steps := 1 + c.Intn(4, "aux.steps")
 	var desc []string
 	for i := 0; i < steps; i++ {
 		kind := []string{"incr", "setnx", "hash", "setexp"}[c.Intn(4, "aux.kind")]
-		cat := c14cats[c.Intn(len(c14cats), "aux.cat")]
-		key := pick(cat, i)
+		dk := c14drawKey(e, c14cats[c.Intn(len(c14cats), "aux.cat")], "aux", fmt.Sprintf("a%d", i))
+		key, cat := dk.key, dk.cat
 		wide := e.clusterWide(cat) && cat != "persistent" && a != b
 		desc = append(desc, kind+":"+cat)
 		w.Probe("aux." + kind + "." + cat)
